@@ -210,6 +210,100 @@ Example C16_type_refcount_witnesses :
   s_tref (fst (run w_ref_fine (init_ref 1 w_ref_progs_atomic))) = 3%Z.
 Proof. vm_compute. repeat split; reflexivity. Qed.
 
+(* thread-local against process-wide scratch memory (a struct tm filled by gmtime_r / localtime_r on the stack, against
+   the static struct tm of gmtime / localtime): the sequence of values a thread reads back from its THREAD-LOCAL buffer
+   is, in every schedule, cut anywhere, and whatever the other threads do (also when they use the process-wide buffer),
+   on the way to the sequence it reads running alone: what it has read so far followed by what its remaining program
+   will read from the current buffer is scr_reads of its whole program. (Programs in which no scratch step sits in a
+   conditionally skipped block; all compiled API programs are.) *)
+Theorem C16_scratch_local_interference_free : forall d0 progs sched t p,
+  (forall q, In q progs -> scr_unskipped q = true) -> nth_error progs t = Some p ->
+  local_reads t (snd (run sched (init d0 progs))) ++
+    scr_reads (thread_rem (fst (run sched (init d0 progs))) t) (s_lscr (fst (run sched (init d0 progs))) t)
+  = scr_reads p 0.
+Proof. exact scratch_local_interference_free. Qed.
+Print Assumptions C16_scratch_local_interference_free.
+
+Theorem C16_api_programs_scr_unskipped : forall ops, scr_unskipped (compile ops) = true.
+Proof. exact compile_scr_unskipped. Qed.
+Print Assumptions C16_api_programs_scr_unskipped.
+
+(* regression (a seeded change used gmtime() in lyplg_type_print_date_and_time): with the PROCESS-WIDE buffer thread 0
+   fills in 5, thread 1 fills in 9, thread 0 reads back 9; with the thread-local buffer (as coded) the same schedule
+   gives each thread its own value *)
+Definition is_scratch_ev (x : tid * event) : bool := match snd x with EvScratch _ _ => true | _ => false end.
+Example C16_static_scratch_shared :
+  filter is_scratch_ev (snd (run w_scr_fine (init (fun _ => 0) w_scr_progs)))
+  = [(0%nat, EvScratch true 9); (1%nat, EvScratch true 9)] /\
+  filter is_scratch_ev (snd (run w_scr_fine (init (fun _ => 0) w_scr_progs_local)))
+  = [(0%nat, EvScratch false 5); (1%nat, EvScratch false 9)].
+Proof. vm_compute. split; reflexivity. Qed.
+
+(* regression (a seeded change of ly_err_get_rec read the found slot of err_ht after pthread_mutex_unlock): the program
+   does not pass the static lock check, and under the schedule of the former err-rec witness (thread 5 creates the 6th
+   record and enlarges the table between thread 0's unlock and its read) the slot read is an access to the table without
+   the lock through a pointer into the freed arena. The program as coded (read before the unlock) passes the check, so
+   C16_lock_discipline applies to it. *)
+Definition is_slot_ev (x : tid * event) : bool :=
+  match snd x with EvSlot _ => true | EvAccess RErrTab false => true | _ => false end.
+Example C16_err_slot_read_after_unlock :
+  disc (false, false) p_err_get_late = false /\ disc (false, false) p_err_get_slot = true /\
+  all_done (fst (run w_slot_fine (init (fun _ => 0) w_slot_progs))) = true /\
+  filter is_slot_ev (snd (run w_slot_fine (init (fun _ => 0) w_slot_progs)))
+  = [(0%nat, EvAccess RErrTab false); (0%nat, EvSlot false)].
+Proof. vm_compute. repeat split; reflexivity. Qed.
+
+(* regression (a seeded change put an unlocked test of the first node's hash in front of the lock in
+   lyb_cache_module_hash): the cache is filled node by node, so thread 1, seeing the first node's hash that thread 0 has
+   just stored, skips the lock and reads a hash that is not stored yet. No lock discipline is broken (the test needs no
+   lock by design): it is the fast path itself that is wrong. As coded every thread passes through the lock and both
+   read cached hashes. *)
+Definition is_hashread_ev (x : tid * event) : bool := match snd x with EvHashRead _ => true | _ => false end.
+Example C16_hash_cache_double_checked :
+  filter is_hashread_ev (snd (run w_hashdc_fine (init (fun _ => 0) w_hashdc_progs)))
+  = [(1%nat, EvHashRead false); (0%nat, EvHashRead true)] /\
+  count_ev is_bad_access (snd (run w_hashdc_fine (init (fun _ => 0) w_hashdc_progs))) = 0%nat /\
+  filter is_hashread_ev (snd (run w_hash_fine (init (fun _ => 0) w_hash_progs)))
+  = [(0%nat, EvHashRead true); (1%nat, EvHashRead true)].
+Proof. vm_compute. repeat split; reflexivity. Qed.
+
+(* LYB hash cache as coded (every user goes through the locked fill of ALL nodes before it reads): for programs that
+   pass the static check hchk (each read of a cached hash is preceded, in the same thread, by a completed fill; no hash
+   step in a conditionally skipped block) every read in every schedule finds the hash cached. All compiled API programs
+   pass the check; the double-checked variant of the regression example above does not. *)
+Theorem C16_hash_read_after_own_fill : forall d0 progs sched,
+  (forall q, In q progs -> hchk false q = true) ->
+  forall t b, In (t, EvHashRead b) (snd (run sched (init d0 progs))) -> b = true.
+Proof. exact hash_read_after_own_fill. Qed.
+Print Assumptions C16_hash_read_after_own_fill.
+
+Theorem C16_api_programs_hash_checked : forall ops, hchk false (compile ops) = true.
+Proof. exact compile_hchk. Qed.
+Print Assumptions C16_api_programs_hash_checked.
+
+Example C16_hash_double_checked_rejected : hchk false p_lyb_hash_dc = false /\ hchk false p_lyb_hash = true.
+Proof. vm_compute. split; reflexivity. Qed.
+
+(* err_ht slot pointers, positive side of the regression above: for programs that pass the lock check disc AND the check
+   schk (every read through a slot pointer of the table's arena happens in the critical section in which the slot was
+   looked up, with no insertion by the thread in between), in every schedule every slot read goes through a pointer
+   into the CURRENT arena - no other thread can enlarge the table in between, because enlarging needs the lock. All
+   compiled API programs pass both checks; the read-after-unlock variant passes neither. *)
+Theorem C16_slot_read_in_section_valid : forall d0 progs sched,
+  (forall q, In q progs -> disc (false, false) q = true /\ schk false q = true) ->
+  forall t b, In (t, EvSlot b) (snd (run sched (init d0 progs))) -> b = true.
+Proof. exact slot_read_in_section_valid. Qed.
+Print Assumptions C16_slot_read_in_section_valid.
+
+Theorem C16_api_programs_slot_checked : forall ops, schk false (compile ops) = true.
+Proof. exact compile_schk. Qed.
+Print Assumptions C16_api_programs_slot_checked.
+
+Example C16_slot_check_examples :
+  schk false p_err_get_late = false /\ schk false p_err_get_slot = true /\
+  schk false (compile [ALogStore 10] ++ p_err_get_slot) = true.
+Proof. vm_compute. repeat split; reflexivity. Qed.
+
 (* the hypotheses of the positive theorems are satisfiable by non-trivial values: three threads inserting and removing
    overlapping strings under a schedule that interleaves their critical sections; all finish, every call succeeded,
    all references were given back and the dictionary is the initial one *)
